@@ -1300,6 +1300,10 @@ func (pc ParseContext) compilePackage(ctx context.Context, b ast.Branch, c ast.C
 
 	if pkgpath := pkg.One("PKGPATH"); pkgpath != nil {
 		scanner := pkgpath.One("").(ast.Leaf).Scanner()
+		if isSandboxed(ctx) {
+			// Importing reads files or URLs, which a sandbox only allows through functions it was given.
+			return nil, fmt.Errorf("import %q is not available in sandboxed evaluation", scanner.String())
+		}
 		var decoderTuple rel.Tuple
 		if e := pkg.One("decoder"); e != nil {
 			encoder, err := pc.CompileExpr(ctx, e.One("expr").(ast.Branch))
